@@ -198,7 +198,7 @@ PROPS = {
     },
     "C17": {
         "level": "exploration",
-        "build": "plain",
+        "build": "instr",
         "tiers": tiers(1500, 60, 40000, 900),
         "rule": "world twins: one request history (3-4 created locations plus a never-created one, 20-40 requests - AddFact with ttl/deleteWith, RemFact, GetFact, "
                 "SearchFacts own/inherited, AddRule with and without condition, RemRule, EnableRule, ProcessEvent, SetParents, Clear - and sleeps of 0.5 ms to 4 s) "
@@ -258,5 +258,36 @@ PROPS = {
         "components": {"real": REAL + ["rulio's own goroutines (rule actions) as simulator tasks"], "stub": ["simrt token scheduler (instrumentation of sync/go/WaitGroup/map range by tools/instr)", "SimStorage wrapper with yield points", "JavaScript time-outs switched off (the watchdog's select is not under scheduler control)"]},
         "assumptions": ["the instrumenter's rewrites preserve behaviour (all other checks run uninstrumented code and agree on the fault-free sequential fragment)",
                         "data races that do not change any result are outside what this world sees (no race detector in this tier)"],
+    },
+    "C11": {
+        "level": "exploration",
+        "build": "instr",
+        "tiers": tiers(2500, 90, 80000, 1200, gomaxprocs=4),
+        "distinct_measure": "distinct (operation lists, pre-emption points, number of task switches) triples, i.e. distinct interleavings executed",
+        "rule": "2-6 simulated clients, client i owning location own<i> of one sys.System (cache TTL forever or never, indexed or linear state, one shared "
+                "SimStorage over core.MemStorage), each issuing 3-8 requests (AddFact, RemFact, GetFact, SearchFacts, AddRule whose action adds a fact, RemRule, "
+                "ProcessEvent, Clear) starting with the very first requests after the engine is built; all clients start together, the token scheduler orders "
+                "them at lock and storage yield points with 0-4 seeded pre-emptions. Judged: each client's results equal those of its sequence run alone on a "
+                "fresh engine (self-differential), each location's final facts, rules and stored ids equal the solo run's, no deadlock, task panic or step "
+                "budget overrun. Non-trivial: at least one task switch; distinct as in distinct_measure.",
+        "components": {"real": ["sys.System incl. location cache", "core", "rule-action goroutines as simulator tasks"], "stub": ["simrt token scheduler (instrumented sync/go/WaitGroup/map range)", "SimStorage wrapper with yield points", "SimCron"]},
+        "assumptions": ["System.ensureStorage has no yield point inside (no lock, no call-out): its unsynchronised check-then-set cannot be interleaved by this scheduler; no race detector in this tier",
+                        "requests go through sys.System (the HTTP handler adds only per-request contexts)"],
+    },
+    "C04": {
+        "level": "exploration",
+        "build": "instr",
+        "tiers": tiers(2500, 90, 80000, 1200, gomaxprocs=4),
+        "distinct_measure": "distinct (rule set and events, pre-emption points, number of task switches) triples",
+        "rule": "a location with 0-6 facts and 0-4 rules: `when` patterns with an array variable (one binding per element of the event's array), a variable or a "
+                "constant; conditions yielding 0-3 bindings (pattern, pattern joined on the event variable, and-with-code); 1-3 actions per rule from a template "
+                "family: 'ok' returns {r: ruleId, a: index, loc: location, ev: event, x, n} (its visible variables) and stores one execution fact through "
+                "Env.AddFact, 'throw' throws, 'nocompile' does not compile; some rules ask for serialActions (their actions are all 'ok'). 1-2 events are processed by "
+                "concurrent simulated clients; every action goroutine is a simulator task, ordered and pre-empted (0-3 PCT points, inside AddFact too) by the "
+                "tape; map iteration order from the tape. Judged against the reference (when-match x condition x actions): the multiset of action nodes "
+                "(rule, bindings, action, disposition, value), the `values` list, and the number of stored execution facts; failing actions are non-complete on "
+                "their own node and change nothing else. Non-trivial: at least one action executed; distinct as in distinct_measure.",
+        "components": {"real": REAL + ["WorkWalk and its action goroutines as simulator tasks", "otto"], "stub": ["simrt token scheduler (instrumented build)", "SimStorage wrapper with yield points"]},
+        "assumptions": ["core.Matches as matching primitive", "JavaScript time-outs off (the watchdog's select is outside scheduler control)"],
     },
 }
